@@ -32,7 +32,7 @@ RULE = (
     "random programs of 3-14 path objects (1-4 subpaths each: m l c v y h re; painted by S s f f* B B* b b* or ended by n, "
     "optionally clipped W/W*) interleaved with q Q cm w d and colour operators g G rg RG k K cs CS sc scn SC SCN (Device "
     "spaces and ICCBased N=1/3/4, DeviceN with 1/3/4 names); dyadic operands; CTMs incl. rotations by 90, reflections, "
-    "shears, scalings. distinct = distinct content bytes; non-trivial = >=2 painted subpaths and >=6 distinct operators. "
+    "shears, scalings; in 30% of the cases the judged page follows another page (leaving w, d, colours behind) in the same interpreter and must equal the page interpreted alone. distinct = distinct content bytes; non-trivial = >=2 painted subpaths and >=6 distinct operators. "
     "Not generated (statement silent / ISO forbids): graphics-state operators inside a path object, segments after h without "
     "a new m, a painted path consisting of a single m, degenerate rectangles are class-agnostic, 'm l h' is class-agnostic "
     "(line or curve), colour spaces with other component counts, Pattern/Separation spaces, cs/CS not followed by a colour."
